@@ -3,6 +3,11 @@ from excel2pycl.src.exceptions import E2PyclParserException
 from excel2pycl.src.tokens.regexp_base_token import RegexpBaseToken, KeywordRegexpBaseToken
 
 
+def _sheet_title(quoted: str, plain: str, default):
+    # inside a quoted title a doubled apostrophe stands for one apostrophe: 'it''s'!A1 is cell A1 of the sheet it's
+    return quoted.replace("''", "'") if quoted else plain or default
+
+
 class MatrixOfCellIdentifiersToken(RegexpBaseToken):
     # TODO Consider the possibility of a matrix like A:A
     regexp = r'((\'((?:[^\']|\'\')*)\'|(\w*?))!)?\$?([A-Z]+)(\$?(\d+))?:\$?([A-Z]+)(\$?(\d+))?'
@@ -19,8 +24,8 @@ class MatrixOfCellIdentifiersToken(RegexpBaseToken):
     @property
     def matrix(self) -> (Cell, Cell,):
         if self._matrix[0] is None:
-            self._matrix = Cell(title=self.value[3] or self.value[4] or self.in_cell.title, column=self.value[5],
-                                row=self.value[7]), Cell(title=self.value[3] or self.value[4] or self.in_cell.title,
+            self._matrix = Cell(title=_sheet_title(self.value[3], self.value[4], self.in_cell.title), column=self.value[5],
+                                row=self.value[7]), Cell(title=_sheet_title(self.value[3], self.value[4], self.in_cell.title),
                                                          column=self.value[8], row=self.value[10])
         return self._matrix
 
@@ -40,8 +45,8 @@ class CellIdentifierRangeToken(RegexpBaseToken):
     @property
     def range(self) -> (Cell, Cell,):
         if self._range[0] is None:
-            self._range = Cell(title=self.value[3] or self.value[4] or self.in_cell.title, column=self.value[7] or self.value[13],
-                               row=self.value[9] or self.value[15]), Cell(title=self.value[3] or self.value[4] or self.in_cell.title,
+            self._range = Cell(title=_sheet_title(self.value[3], self.value[4], self.in_cell.title), column=self.value[7] or self.value[13],
+                               row=self.value[9] or self.value[15]), Cell(title=_sheet_title(self.value[3], self.value[4], self.in_cell.title),
                                                                           column=self.value[7] or self.value[16],
                                                                           row=self.value[11] or self.value[15])
         return self._range
@@ -62,7 +67,7 @@ class CellIdentifierToken(RegexpBaseToken):
     @property
     def cell(self) -> Cell:
         if self._cell is None:
-            self._cell = Cell(title=self.value[3] or self.value[4] or self.in_cell.title, column=self.value[5],
+            self._cell = Cell(title=_sheet_title(self.value[3], self.value[4], self.in_cell.title), column=self.value[5],
                               row=self.value[6])
         return self._cell
 
